@@ -606,7 +606,30 @@ pub fn scenario_l(sseed: u64, _tier: Tier) -> Report {
     }
     let mut fired = 0u64;
     for mask in 1u8..16 {
-        let (out, counts, panics) = run_listened(layer, mask, wl_seed);
+        let (mut out, mut counts, mut panics) = run_listened(layer, mask, wl_seed);
+        if out != quiet_out || counts.iter().zip(quiet_counts.iter()).any(|(a, b)| a != b) || !panics.is_empty() {
+            // a verdict needs a reproducible difference: the workload is deterministic, so a real
+            // effect of the panicking listeners shows up identically every time
+            let mut same = true;
+            for _ in 0..2 {
+                let again = run_listened(layer, mask, wl_seed);
+                let quiet_again = run_listened(layer, 0, wl_seed);
+                if again.0 != out || again.1 != counts || quiet_again.0 != quiet_out || quiet_again.1 != quiet_counts {
+                    same = false;
+                }
+            }
+            if !same {
+                rep.inconclusive = Some(format!("listeners:{layer}: a difference between the quiet and the panicking run (mask {mask:04b}) did not reproduce"));
+                rep.count("unreproducible_differences", 1);
+                let r = run_listened(layer, mask, wl_seed);
+                out = r.0;
+                counts = r.1;
+                panics = r.2;
+                if out != quiet_out || counts != quiet_counts {
+                    continue;
+                }
+            }
+        }
         for p in &panics {
             rep.violate(format!("C20:listeners:{layer}:listener-panic-escaped"), format!("mask {mask:04b}: {p}"));
         }
